@@ -18,7 +18,7 @@ CHECKS = {
                 'recorded; a symbolic effect executor shows that each of the 18 rule bodies (incl. all 8 arms of add_edge_smart) produces exactly the effects of its '
                 'reference schema (phases as linear forms, sqrt2 exponents as polynomials, scalar factors as normalised sums); raw edge insertions only to fresh '
                 'vertices or under a not-connected test. The fusion loop of fuse_gadgets removes all gadgets of a group but the first (hub and leaf), sums their leaf phases into the first leaf and multiplies the scalar by sqrt2^(-(num-1)(degree-1)) (exponent compared as a polynomial).',
-        'note': TB + 'Schemas (refs/effects_ref.py) and contracts (refs/rules_req.py) are the trusted base, reviewed against DESIGN Appendix A.1. Not decided: that the schemas are true ZX identities, termination, panic freedom beyond existence, float tolerance.',
+        'note': TB + 'Schemas (refs/effects_ref.py) and contracts (refs/rules_req.py) are the trusted base, reviewed against DESIGN Appendix A.1. Beyond the evaluated small scope (diagrams of at most about ten vertices, phases in multiples of pi/4) what is decided is the structural reading: guards, inline matchers, effect schemas, edge discipline. Not decided: termination, float tolerance for phases outside pi/4.',
         'technique': 'guard dominance with must-fact contracts, facts-at-program-point extraction, symbolic effect summaries with polynomial/linear normal forms, freshness dataflow',
     },
     'C02': {
@@ -27,7 +27,7 @@ CHECKS = {
                 'Circuit::to_tensor; state/effect kinds have their sqrt2 powers; compound kinds go through the basic-gate expansion or the gadget (edge '
                 'discipline, scalar omega*2^2); PostSelect and Measure perform the same slot-keyed index-shift block; the qubit->output-slot map that SWAP '
                 'permutes is consumed as a gather in qubit order when outputs are finalised; every arm goes through the map; simplify-while-building applies only checked rules. No gate overwrites the diagram scalar (every update is multiplicative); the CCZ/Toffoli constant sequences multiply out to the gate and the parity-phase expansion has the exact phase polynomial for every arity 0..8 (shared with C15).',
-        'note': TB + 'Not decided: equality of maps for gate sequences, local_ap_simp\'s effect, the CCZ gadget identity.',
+        'note': TB + 'Beyond the evaluated circuits (one to four gates on at most three wires) what is decided is the structural reading (per-gate table, slot bookkeeping, compound gates through push_basic_gates). Not decided: measurement gates end to end (C10 evaluates their arms), phases outside multiples of pi/4.',
         'technique': 'dispatch-table descriptors cross-checked between two implementations and a reference, sibling agreement, data-flow rule on the map, who-may-call',
     },
     'C03': {
@@ -36,7 +36,7 @@ CHECKS = {
                 'operands and the same m is written back; every proxy circuit is consumed into the output circuit on every path; update_frontier_circuit visits '
                 'all gates in order, lifts both operands through the frontier and pushes to the front; only checked rules; every ExtractError propagated; CLI '
                 'wiring parse -> to_graph -> simp -> to_circuit -> to_qasm -> print/write; configuration tables. single_sln_set selects an extractable row whenever one exists (argmin idiom: non-strict comparison against an attainable initial bound, among rows of weight one, solution set read from the selected row).',
-        'note': TB + 'Not decided: that extraction succeeds and that the circuit is equivalent (gflow of run-time graphs, bitgauss convention), .expect in the CLI.',
+        'note': TB + 'Success and equivalence of extraction are decided on the evaluated small scope only (circuits of up to three gates on up to three wires; the external bitgauss crate is a host model ported from its source; hash sets iterated in sorted order); beyond it the structural rules stand. Not decided: the .expect in the CLI for circuits outside the scope, QASM round trip as values (C14).',
         'technique': 'constant-argument emission rule over call-graph closure, mirrored-operation and proxy-consumption pairing, who-may-call, error-propagation rule, wiring/data-flow and configuration tables',
     },
     'C04': {
@@ -44,7 +44,7 @@ CHECKS = {
                 'every conjunct of its rule precondition that is necessary for soundness or for not panicking (refs/rules_req.py); existence typestate: no '
                 'panicking accessor on a vertex parameter is reached without a fact implying the vertex exists (17 matchers, helpers inlined); rejection is a '
                 'no-op: matchers take &impl GraphLike, no interior mutability in either back end, each checked wrapper mutates only in the accepting branch with its own arguments.',
-        'note': TB + 'The contract table is trusted (derivations in refs/rules_req.py). Not decided: sufficiency of the preconditions (C01 schemas + calculus), arithmetic-overflow panics, the pi-copy leg condition.',
+        'note': TB + 'The contract table is trusted (derivations in refs/rules_req.py). Sufficiency of the matchers\' conditions is decided on the evaluated small scope only (that is where defect 29 was found); beyond it the contract table stands. Not decided: arithmetic-overflow panics.',
         'technique': 'must-fact (accepting-condition DNF) extraction with closure rules, existence typestate, wrapper shape rule',
     },
     'C05': {
@@ -54,7 +54,7 @@ CHECKS = {
                 'node kind (terms summed, components multiplied, scalar assigned to one component); cat_ts and the Sherlock inline matcher establish the cat '
                 'contract at the point a cat is built; Decomp construction sites are guarded; raw edge insertion only to fresh vertices in the 27 replacement '
                 'bodies; dispatch/config tables; structural effect schemas of apply_cat_decomp (pi-normalisation, padding), cut_spider, reverse_pivot.',
-        'note': TB + 'Not decided: the Z[omega] coefficients of the replace_* terms and the sum identities, the final value, heuristic float arithmetic, the saved-terms clause.',
+        'note': TB + 'The sum identities and coefficients are decided as values on the evaluated small scope, for the three deterministic drivers. Not decided: the dynamic-T and Sherlock drivers\' choices (float heuristics, hash-map iteration, random T choice; the steps they can choose are the evaluated ones plus the T-pair step), the final value of a whole run, the saved-terms clause as values.',
         'technique': 'sibling agreement of branch descriptors, type-level schedule argument (field-type scan), reduction/constructor table, facts-at-point contracts, freshness dataflow, effect schemas',
     },
     'C06': {
@@ -91,7 +91,7 @@ CHECKS = {
                 'domains from the matchers enumerated); each rule handles a vertex\'s parities or its matcher requires them absent; Parity constructors and recognisers '
                 'agree (recogniser evaluated on the constructor literal), Expr::quadratic normal form, private fields, both back ends multiply scalar factors on '
                 'collision; both measurement arms attach the given or a fresh parity to their X effect. The Measure arm removes the output slot and shifts the qubit->slot map keyed by the removed slot, exactly as PostSelect.',
-        'note': TB + 'The parameter-free branch of each rule is the oracle for its boolean-variable branch. Not decided: Parity merge loop values, instantiation semantics, measurement circuits end to end.',
+        'note': TB + 'The parameter-free branch of each rule is the oracle for its boolean-variable branch. Not decided: instantiation semantics, measurement circuits end to end, diagrams beyond the evaluated small scope as values.',
         'technique': 'symbolic effect summaries with pairing obligations, exact Q(omega)/Laurent-polynomial algebra over extracted scalar effects, constructor/recogniser evaluation on literals, sibling rules',
     },
     'C11': {
@@ -182,7 +182,7 @@ CHECKS = {
                 'idioms: stable sort keyed by vertex_type != B, or a first segment filtered on vertex_type == B) and that order is the one used for the adjacency matrix; '
                 'the column offset pw() recomputes from g.inputs()/g.outputs() is the width of the identity block (same vector, unmodified, inputs emptied, nothing changes them before pw runs) and pw looks nodes up as index_map[col - n_outs] over all columns; '
                 'the matrix whose null space is taken has the block structure [[I_outs;0 | N],[I_2outs | 0]] with every vstack/hstack dimension-consistent (symbolic shapes); pw\'s colour and Pauli tables; every basis vector becomes one returned web; make_bipartite re-routes every edge it removes through one fresh phase-free spider of the opposite colour on every path (never deletes an edge) and runs first; boundaries not attached to a spider (bare wires) are ignored.',
-        'note': TB + 'D2 is a necessary condition of numbering independence only. Not decided: validity, independence, completeness of the webs.',
+        'note': TB + 'Validity, independence, completeness and numbering independence are decided on the evaluated small scope (diagrams of up to 7 spiders and 9 internal edges; bitgauss::BitMatrix is a host model, any null-space basis serves the statement); beyond it D2 is a necessary condition of numbering independence only and the structural rules stand.',
         'technique': 'save/clobber/restore pairing with provenance on all paths; must-fact rule at the point where the node order is built; data-flow agreement of a positional offset between two functions; symbolic block-matrix shape evaluation; table extraction',
     },
 }
@@ -203,9 +203,13 @@ THREE_VALUED = (' Verdict semantics: a VIOLATION is printed only for a definite 
                 'a separated guard, a missing effect); code in a shape a rule does not understand makes that obligation UNDECIDED (printed, listed in the evidence, exit 0), never an alarm.')
 
 ROUND2 = {
+    'C20': 'Round 2: the statement itself on a small scope: detection_webs is interpreted on 18 small Pauli diagrams in three vertex numberings, with and without pi phases (108 cases): every returned web avoids the boundary edges and satisfies the spider constraints, the webs are independent over F2, their number equals the dimension found by brute-force enumeration of all edge markings, it is the same for every numbering, and inputs / outputs are restored.',
+    'C01': 'Round 2: the statement itself on a small scope: all 12 procedures of simplify.rs are interpreted from their HIR (with basic_rules.rs, phase.rs, params.rs and both graph back ends) on a finite family of small diagrams and the map before is compared with the map after, scalar included, under every assignment of the boolean variables, by a brute-force contraction over exact numbers in Q(e^{i pi/4}) that shares no code with tensor.rs; no procedure may panic.',
+    'C04': "Round 2: the statement itself on a small scope: all 14 checked rules of basic_rules.rs, with every argument tuple (equal arguments included), interpreted on four families of small diagrams on both back ends: accepted => same linear map, scalar included, under every assignment of the variables; rejected => returns false and the back end's state is untouched; never a panic (quick: about 1 200 diagrams / 108 000 applications; thorough: every member, 3.6 million applications).",
+    'C05': "Round 2: 'each decomposition step replaces a diagram by terms whose values sum to the original' is evaluated: the drivers BssTOnly, BssWithCats and SpiderCutting, apply_decomp and every replace_* they reach are interpreted on graph-like diagrams with 1..7 T-type spiders and on cat states with 3..6 legs (centre 0 / pi, adjacent legs); the maps of the terms, scalars included, must sum exactly to the map of the diagram (the hard-coded Z[omega] coefficients are checked as values).",
     'C07': 'Round 2: Ord::cmp is evaluated on the 49-case abstraction by an interpreter that follows early returns, then/then_with and match; the Z[omega] product is evaluated on symbolic coefficients for all 256 patterns of vanishing coefficients (table and zero-skips by value, not by loop shape).',
     'C08': 'Round 2: scalar_eq is evaluated on 4764 pairs of small exact tensors against "equal up to a non-zero factor"; tensor arms are followed through free helper functions.',
-    'C10': 'Round 2: params.rs is decided by exhaustive evaluation over the parity expressions on three variables; the Measure / MeasureReset arms are evaluated on a tracing host graph with and without a gate parity (given parity used, fresh variable otherwise, counter moved exactly once when fresh, parity attached to the X effect), private helpers followed.',
+    'C10': 'Round 2: the statement itself on a small scope: on every member of the small-diagram family of C04 that carries boolean variables, every checked rule leaves the denoted map unchanged under EVERY assignment (a spider with parity b evaluated at phase p + b*pi, a parametrised scalar factor applied exactly when its expression is true) or returns false and changes nothing; params.rs is decided by exhaustive evaluation over the parity expressions on three variables; the Measure / MeasureReset arms are evaluated on a tracing host graph with and without a gate parity (given parity used, fresh variable otherwise, counter moved exactly once when fresh, parity attached to the X effect), private helpers followed.',
     'C11': 'Round 2: is_identity is evaluated on all 422 boundary configurations with at most 2 inputs, 2 outputs and one interior vertex (soundness of every "true", no panic); the guards of effect schemas are compared as boolean functions (enum variants, order trichotomy, options) rather than as text.',
     'C12': 'Round 2: equal_graph_with_options and equal_graph_tensor are evaluated over a symbolic host (diagrams as expressions adj(arg1) o arg2, 16 worlds of dims / identity / flag / scalar argument) against the soundness table of the statement; is_identity as in C11.',
     'C13': 'Round 2: reader/writer field provenance is compared through canonical, name-independent access paths (self.node_vertices[*].1.annotation.coord.0 ...); the marker condition is evaluated for every vertex type and both flag values; the neighbour-count validation is recognised as a length test or a two-element slice pattern.',
@@ -213,8 +217,8 @@ ROUND2 = {
     'C15': 'Round 2: decided by evaluation on small circuits — Gate::adjoint on every unitary kind (denotation negated), Circuit::adjoint / reverse / to_adjoint on circuits of 0..6 gates in every two-slice layout of the VecDeque, push_basic_gates / num_basic_gates / to_basic_gates for every kind and arity (CCZ / Toffoli multiplied out, parity-phase as an F2 phase polynomial for arities 0..8), CircuitStats::make on 168 one-gate circuits plus additivity, the five Add impls.',
     'C17': 'Round 2: the statement\'s own clauses are decided exhaustively for every F2 matrix with at most 3 rows and 3 columns (thorough tier: 3x4, the bound the statement names), every block size 1..cols and both reduction modes, against a brute-force model: rank, (reduced) echelon form, same row space through the reported row operations, two-sided inverse exactly when invertible, null space (annihilated, independent, cols - rank), transpose, stacking, all four Mul impls. Larger sizes remain covered structurally (block tiling up to 24 columns).',
     'C18': 'Round 2: DecompTree and RankwidthAnnealer::run are interpreted from their HIR on graphs with 2..5 vertices (thorough tier: up to 6, and every state reachable on the 4-vertex path) over every outcome of every random draw and every interleaving of moves and cache refills; an independent oracle decides at every reached state: cubic tree with exactly the vertices as leaves, no panic, rankwidth / score with the cache = the same on an empty cache = largest cut rank by brute force; the annealer returns a valid tree no wider than its initial one. The structural rules are the size-independent reading of the same code; cache-key canonicality is read off dominating conditions, cache writes off value provenance.',
-    'C02': 'Round 2: the output-slot bookkeeping of post-selection and measurement is evaluated on concrete qubit-to-slot maps.',
-    'C03': 'Round 2: the OptMethod dispatch is evaluated for every variant.',
+    'C02': 'Round 2: the statement itself on a small scope: Circuit::to_graph_with_options is interpreted in all three modes on both back ends for 1 892 small circuits (every unitary kind on every tuple of distinct qubits of 1..3 wires, five phases, parity-phase gadgets of every arity, ordered pairs, compound gates, ancilla initialisation first / post-selection last) and the map of the diagram, scalar included, is compared with the gate-by-gate matrix semantics of the reference table; the output-slot bookkeeping of post-selection and measurement is evaluated on concrete qubit-to-slot maps.',
+    'C03': 'Round 2: the statement itself on a small scope: for 635 unitary circuits of one to three gates on two / three wires, Circuit::to_graph, each simplification strategy and each extractor mode are interpreted (bitgauss::BitMatrix as a host that ports the crate\'s elimination routine and calls the interpreted RowOps impl back): extraction succeeds, stays on the same qubits and in the gate set H / ZPhase / CZ / CNOT / SWAP, and implements the same unitary up to a non-zero scalar (up to permutation where so requested); the OptMethod dispatch is evaluated for every variant.',
     'C06': 'Round 2: amplitude, expectation_value, sample and decomp_graph are evaluated end to end on a host circuit denoting a fixed state with exact amplitudes (1..3 qubits): the numbers returned equal |<b|psi>|^2, <psi|P|psi> and the conditional probabilities computed directly from the state, for every bit / Pauli string (broadcast and exact length, plain and Hadamard boundary edges, with and without --parallel) and every outcome of the draws; wrong lengths are rejected before the diagram is touched; both string parsers on every string of length <= 2.',
     'C09': 'Round 2: both back ends are interpreted themselves and explored differentially against a model graph over operation sequences from three seed graphs (holes, names beyond the end): same observations through the name bijection, same failures.',
     'C16': 'Round 2: phase.rs is evaluated on a host model of Rational64 (constructors normalise, every operator impl, predicates, conversions; limit_denominator against CPython\'s).',
